@@ -1,6 +1,7 @@
 """C09 - server property; model coq/srv/SrvModel.v, acceptor coq/srv/Accept.v (projection "c09"),
 harness harness/conc (family "c09"), driver vlib/srvlib.py."""
 from . import srvlib
+from . import clilib
 
 TRUSTED = ["sync.Mutex critical sections are atomic and sequentially consistent (one model label per critical section)",
            "sync.WaitGroup, x/sync/semaphore.Weighted (FIFO, cancelled contexts fail), context cancellation, buffered channels: "
@@ -12,11 +13,28 @@ ASSUMPTIONS = ["the peer keeps receiving (Send never blocks for ever)", "handler
 
 
 def run(ctx, res):
+    if ctx.get("replay"):
+        import json
+        with open(ctx["replay"]) as f:
+            fam = json.load(f).get("family", "c09")
+        if str(fam).startswith("cli:"):
+            return clilib.run_family(ctx, res, "cli:c09")
+        return srvlib.run_family(ctx, res, "c09")
+    # the library's own Client as the peer that answers the pushes ("client failures as *Error"): family cli:c09 of the
+    # client harness (callback handlers that succeed, fail with coded/uncoded errors, return unencodable values, panic),
+    # logs replayed through the Coq client model
+    clilib.run_family(ctx, res, "cli:c09", n_quick=1500, n_thorough=30000)
+    ev2, dn2, samples2, extra2 = res.evaluations, res.distinct_nontrivial, list(res.samples or []), dict(res.extra)
     srvlib.run_family(ctx, res, "c09")
+    res.extra = dict(server_side=dict(res.extra), client_side=extra2)
+    res.evaluations += ev2
+    res.distinct_nontrivial += dn2
+    res.samples = list(res.samples or [])[:2] + samples2[:1]
     res.rule = ("scenario = seeded history of environment actions (records fed: single/batch, calls, notifications, each "
                 "single-defect invalid member, reply-shaped members, non-JSON; handler completions with results/errors; "
                 "CancelRequest, Stop, Notify/Callback, context ends, Recv errors, Send failures, restart) interleaved with "
                 "releases of goroutines parked at the verif scheduling points (fifo = quiescent stepping, random = seeded "
                 "schedule); family 'c09' weights the actions towards this property; every log is replayed through the Coq server "
                 "model (projection 'c09') and judged by the property monitors; non-trivial = distinct log satisfying the family's "
-                "rule (srvlib.nontrivial)")
+                "rule (srvlib.nontrivial); client side: family cli:c09 of the client harness (server requests and callback-handler "
+                "outcomes above all), logs replayed through the Coq client model")
